@@ -35,6 +35,8 @@ package parse
 //@   ghostset @call:iface:github.com/anz-bank/golden-retriever/reader.Reader.ReadHashBranch read
 //@   assert @lookup:map[parse.retrievedListIndex]*parse.fileInfo [map-read-under-lock] ghost("locked")
 //@   ensures [lock-released-on-every-return] !ghost("locked")
+// what the reader delivered is what gets compiled (or decoded, for a compiled-model import): byte for byte
+//@   assert @setfield:F.parse.srcInput.input [content-is-kept-as-read] stored == stringof(content)
 //@   assert @mapupdate:map[parse.retrievedListIndex]*parse.fileInfo [map-write-under-lock] ghost("locked")
 //@   assert @mapupdate:map[parse.retrievedListIndex]*parse.fileInfo [claims-only-an-unclaimed-file] !in(mapkey, maptarget) && maptarget == retrieved.l
 //@   assert @call:iface:github.com/anz-bank/golden-retriever/reader.Reader.ReadHashBranch [claim-before-read] ghost("claimed") && !ghost("locked")
@@ -54,9 +56,12 @@ package parse
 //@   structure no-channel-ops
 
 // The import scan looks at every line of the file: an import line is collected wherever it stands, whatever the layout
-// of the lines around it (indented comments, whitespace-only lines) — the scan loop is left only at the end of input.
+// of the lines around it (indented comments, whitespace-only lines) — the scan loop is left only at the end of input —
+// and every file whose name carries the .sysl extension is scanned, whatever version suffix follows it.
 //@ func extractImports
 //@   structure no-early-loop-exit
+//@   ghostset @call:bufio.NewScanner scanned
+//@   ensures [every-sysl-file-is-scanned-for-imports] contains(filename, ".sysl") ==> ghost("scanned")
 
 // The imports of a file are what walking *its* import block gives, resolved against *its* directory: a successful
 // result is produced by a walk made in this call.
@@ -330,3 +335,8 @@ package parse
 //@   ensures [float64] native != nil && upperName(native) == "FLOAT64" && result1 != nil ==> result1.BitWidth == 64 && result1.Range == nil
 //@   ensures [other-names-unconstrained] native != nil && upperName(native) != "INT32" && upperName(native) != "INT64" && upperName(native) != "FLOAT32" && upperName(native) != "FLOAT64" ==> result1 == nil
 //@   ensures [always-a-primitive] native != nil ==> result0 != nil
+
+// Compiling a string touches nothing that is shared between compilations: the in-memory file system and the reader it
+// compiles from are made for the call.
+//@ func (*Parser).ParseString
+//@   structure uses-only-globals
